@@ -1,6 +1,21 @@
-(* L2: AdoptSession on a genuine Persistence that satisfies the outbound invariant
-   resumes exactly the unacknowledged set (C02), plus groundwork for C16
-   (damaged records are deleted and counted).  Proofs only. *)
+(* L2: AdoptSession (Session.op_adopt) on a genuine Persistence.
+
+   C02  adopt_exact            on a store that satisfies the working invariant OInv' (plus
+                               known_keys, markers_genuine) a restart resumes exactly the
+                               unacknowledged set: same windows, same identifiers, each transfer
+                               at its stage, nothing deleted, no warning, and OInv' holds again
+        adopt_some             the same whenever a client is returned at all (any failure script)
+        adopts_inv             Outbound.adopts keeps OInv', known_keys, markers_genuine, the
+                               store and the three window sizes (chains with osteps_a)
+        adopt_order_independent  the order of the List answer does not matter (tape mode)
+        adopt_recvd_pinned_refuted  the "<" of the pinned tree lost a full PUBREL window
+   C16  adopt_total_genuine    (groundwork) any damaged store: termination, every undecodable
+                               record deleted and counted, the packet[0] branch needs a forged
+                               record with a valid checksum over an empty packet
+   adopt_exact_nonvacuous      the hypotheses of adopt_exact are satisfiable with all groups
+                               populated.
+   Auxiliary definitions (scan_pure, adopt_finish, mk_client ...) are proof devices: each is
+   tied to op_adopt by op_adopt_map / op_adopt_genuine / op_adopt_tape.  Proofs only. *)
 From Coq Require Import ZArith ZifyN ZifyNat ZifyBool Lia List Permutation Sorted.
 From RecordUpdate Require Import RecordUpdate.
 From MQ Require Import RecordProofs OutboundInv.
@@ -948,6 +963,98 @@ Proof.
   destruct (Z.ltb_spec 16383 z); lia.
 Qed.
 
+(* map mode with arbitrary injected failures, over a store of genuine records: nothing
+   is ever deleted; a failure makes the scan fatal *)
+Lemma ask_store_map w m q a w' :
+  w_store w = Some m -> ask_store q w = Some (a, w') ->
+  exists b t, t_stf w = b :: t /\ t_stf w' = t /\
+    if b : bool then a = SFail /\ w_store w' = Some m
+    else match q with
+         | QList => a = SKeys (map fst m) /\ w_store w' = Some m
+         | QLoad k => a = SVal (store_get m k) /\ w_store w' = Some m
+         | QSave k v => a = SDone /\ w_store w' = Some (store_put m k v)
+         | QDelete k => a = SDone /\ w_store w' = Some (store_del m k)
+         | _ => False
+         end.
+Proof.
+  intros Hs E. unfold ask_store in E. rewrite Hs in E.
+  destruct (t_stf w) as [|[|] t] eqn:Et; [discriminate| |].
+  - inversion E; subst. exists true, t. repeat split; auto.
+  - exists false, t. destruct q; inversion E; subst; repeat split; auto.
+Qed.
+
+Definition nofail (l : list bool) : Prop := Forall (fun b => b = false) l.
+
+Lemma adopt_scan_genuine ents : forall a m w r w',
+  w_store w = Some m -> (forall k v, In (k, v) ents -> store_get m k = Some v) ->
+  Forall ent_ok ents ->
+  adopt_scan (map fst ents) a w = Some (r, w') ->
+  w_store w' = Some m /\ ((~ nofail (t_stf w) /\ r = inr E_store) \/ r = fst (scan_pure ents a m)).
+Proof.
+  induction ents as [|[k raw] ents IH]; intros a m w r w' Hw Hget Hok E.
+  - cbn in E. inversion E; subst. split; [exact Hw|right; reflexivity].
+  - cbn [map fst adopt_scan scan_pure] in *.
+    assert (Hget' : forall k' v', In (k', v') ents -> store_get m k' = Some v')
+      by (intros; apply Hget; right; assumption).
+    inversion Hok as [|? ? Hk Hok']; subst.
+    destruct (N.eqb_spec k 0) as [->|Hk0]; [exact (IH _ _ _ _ _ Hw Hget' Hok' E)|].
+    unfold bind in E at 1.
+    destruct (ask_store (QLoad k) w) as [[ans w1]|] eqn:A; [|discriminate].
+    destruct (ask_store_map _ _ _ _ _ Hw A) as (b & t & Et & Et1 & Hb).
+    destruct b.
+    + destruct Hb as [-> Hw1]. unfold ret in E. inversion E; subst.
+      split; [exact Hw1|]. left. split; [|reflexivity].
+      rewrite Et. intros Hf. inversion Hf; discriminate.
+    + destruct Hb as [-> Hw1].
+      assert (Hnf : ~ nofail (t_stf w1) -> ~ nofail (t_stf w)).
+      { rewrite Et, Et1. intros Hn Hf. apply Hn. inversion Hf; assumption. }
+      rewrite (Hget k raw (or_introl eq_refl)) in E.
+      destruct Hk as [Hk|(p & sq & Hraw & Hsq & Hp)]; [cbn in Hk; congruence|].
+      cbn [fst snd] in *. subst raw. rewrite (decode_encode p sq Hsq) in E |- *.
+      destruct (N.testbit k 16).
+      * destruct (IH _ _ _ _ _ Hw1 Hget' Hok' E) as [Hs [[Hn Hr]|Hr]]; (split; [exact Hs|]); auto.
+      * destruct Hp as [Hp|Hp]; [discriminate|]. destruct p as [|h body]; [congruence|].
+        destruct (IH _ _ _ _ _ Hw1 Hget' Hok' E) as [Hs [[Hn Hr]|Hr]]; (split; [exact Hs|]); auto.
+Qed.
+
+Lemma op_adopt_genuine cf max1z max2z w m x w' :
+  w_store w = Some m -> NoDup (map fst m) -> Forall ent_ok m ->
+  op_adopt cf max1z max2z w = Some (x, w') ->
+  w_store w' = Some m /\
+  ((~ nofail (t_stf w) /\ fst x = None)
+   \/ x = adopt_finish cf max1z max2z (fst (scan_pure m acc0 m))).
+Proof.
+  intros Hw Hnd Hok E. unfold op_adopt in E. unfold bind in E at 1.
+  destruct (ask_store QList w) as [[ans w1]|] eqn:A; [|discriminate].
+  destruct (ask_store_map _ _ _ _ _ Hw A) as (b & t & Et & Et1 & Hb).
+  destruct b.
+  - destruct Hb as [-> Hw1]. unfold ret in E. inversion E; subst.
+    split; [exact Hw1|]. left. split; [|reflexivity].
+    rewrite Et. intros Hf. inversion Hf; discriminate.
+  - destruct Hb as [-> Hw1].
+    assert (Hnf : ~ nofail (t_stf w1) -> ~ nofail (t_stf w)).
+    { rewrite Et, Et1. intros Hn Hf. apply Hn. inversion Hf; assumption. }
+    unfold bind in E at 1.
+    destruct (adopt_scan (map fst m) (mkAcc [] [] [] 0 0) w1) as [[r w2]|] eqn:S; [|discriminate].
+    destruct (adopt_scan_genuine m acc0 m w1 r w2 Hw1) as [Hw2 Hr];
+      [intros k v Hin; apply store_get_in; assumption|exact Hok|exact S|].
+    destruct Hr as [[Hn ->] | ->].
+    + unfold ret in E. inversion E; subst. split; [exact Hw2|]. left. split; [auto|reflexivity].
+    + destruct (fst (scan_pure m acc0 m)) as [acc|e].
+      * unfold adopt_finish.
+        destruct (clean_seq (keys_of (a_alo acc))) as [alo g1].
+        destruct (clean_seq (keys_of (a_eo acc))) as [eo g2].
+        destruct (clean_seq (keys_of (a_rel acc))) as [rel g3].
+        cbv beta iota zeta in E.
+        match type of E with
+        | (if ?b then ret ?X else ret ?Y) _ = _ =>
+          assert (E' : Some ((if b then X else Y), w2) = Some (x, w'))
+            by (rewrite <- E; destruct b; reflexivity)
+        end.
+        inversion E'; subst. split; [exact Hw2|right; reflexivity].
+      * unfold ret in E. inversion E; subst. split; [exact Hw2|right; reflexivity].
+Qed.
+
 Section AdoptExact.
   Variable st : ost.
   Hypothesis HI : OInv_fixed st.
@@ -955,34 +1062,39 @@ Section AdoptExact.
   Hypothesis Hkeys : known_keys st.
   Hypothesis Hmark : markers_genuine st.
   Hypothesis Hseq : o_rseq st < M64.
-  Variables (cf : scfg) (m1 m2 : Z) (tp : tapes).
-  Hypothesis Hnofail : Forall (fun b => b = false) (tp_stf tp).
-  Hypothesis Hlim1 : o_acc1 st - o_acked st <= norm_max m1.
-  Hypothesis Hlim2 : o_acc2 st - o_compl st <= norm_max m2.
+  Variables (cf : scfg) (m1 m2 : Z).
 
   Local Notation m := (o_store st).
   Let l1 := wlen st Alo.
   Let lr := wlen st Rel.
   Let le := wlen st Eo.
 
-  Lemma adopt_result oc r w :
-    op_adopt cf m1 m2 (world_of m tp) = Some ((oc, r), w) ->
-    exists amax,
-      oc = Some (mk_client (adopt_cfg cf m1 m2) amax (map key1 (nseq (o_acked st) l1))
-                           (map key2 (nseq (o_compl st + N.of_nat lr) le))
-                           (map key2 (nseq (o_compl st) lr)))
-      /\ r = RetAdopt 0 E_nil /\ w_store w = Some m
-      /\ seq_bound m amax /\ amax <= o_rseq st.
+  (* the three possible outcomes on a store that satisfies the invariant *)
+  Lemma adopt_result wd oc r w :
+    w_store wd = Some m ->
+    op_adopt cf m1 m2 wd = Some ((oc, r), w) ->
+    w_store w = Some m /\
+    ((~ nofail (t_stf wd) /\ oc = None)
+     \/ (~ (o_acc1 st - o_acked st <= norm_max m1 /\ o_acc2 st - o_compl st <= norm_max m2)
+         /\ oc = None /\ r = RetAdopt 0 E_other)
+     \/ (o_acc1 st - o_acked st <= norm_max m1 /\ o_acc2 st - o_compl st <= norm_max m2 /\
+         exists amax,
+           oc = Some (mk_client (adopt_cfg cf m1 m2) amax (map key1 (nseq (o_acked st) l1))
+                                (map key2 (nseq (o_compl st + N.of_nat lr) le))
+                                (map key2 (nseq (o_compl st) lr)))
+           /\ r = RetAdopt 0 E_nil /\ seq_bound m amax /\ amax <= o_rseq st)).
   Proof.
-    intros E.
+    intros Hwd E.
     pose proof (ci_c1 st (oif_cnt st HI)) as C1. pose proof (ci_c2 st (oif_cnt st HI)) as C2.
     assert (Hseq' : o_rseq st < M64) by exact Hseq.
     assert (Hndm : NoDup (map fst m)) by (apply sorted_nodup; exact Hsorted).
-    destruct (op_adopt_map cf m1 m2 (world_of m tp) m (oc, r) w) as [Ex Hw'];
-      [split; [reflexivity|exact Hnofail]|exact Hndm|exact E|].
+    destruct (op_adopt_genuine cf m1 m2 wd m (oc, r) w Hwd Hndm
+                (store_ents_ok st HI Hsorted Hkeys Hmark Hseq') E) as [Hw' Ex].
+    split; [exact Hw'|].
+    destruct Ex as [[Hn Ho]|Ex]; [left; split; [exact Hn|exact Ho]|]. right.
     destruct (scan_pure_ok m acc0 m (store_ents_ok st HI Hsorted Hkeys Hmark Hseq'))
       as (a' & Esp & Hwarn & Hget & _ & Hb1 & Hb2).
-    rewrite Esp in Ex, Hw'. cbn [fst snd] in Ex, Hw'.
+    rewrite Esp in Ex. cbn [fst snd] in Ex.
     assert (HA : clean_seq (keys_of (a_alo a')) = (map key1 (nseq (o_acked st) l1), 0)).
     { change (a_alo a') with (acc_get Alo a'). rewrite Hget. cbn [acc_get acc0 a_alo].
       rewrite app_nil_r.
@@ -1006,15 +1118,17 @@ Section AdoptExact.
     rewrite !len_map_nseq in Ex.
     replace (s_max1 (adopt_cfg cf m1 m2)) with (norm_max m1) in Ex by reflexivity.
     replace (s_max2 (adopt_cfg cf m1 m2)) with (norm_max m2) in Ex by reflexivity.
-    assert (L1 : (norm_max m1 <? N.of_nat l1) = false)
-      by (apply N.ltb_ge; unfold l1, wlen; cbn [lo hi]; lia).
-    assert (L2 : (norm_max m2 <? N.of_nat le + N.of_nat lr) = false)
-      by (apply N.ltb_ge; unfold le, lr, wlen; cbn [lo hi]; lia).
-    rewrite L1, L2 in Ex. cbn [orb] in Ex. rewrite Hwarn in Ex.
-    change (a_warn acc0 + 0 + 0 + 0 + 0) with 0 in Ex.
-    inversion Ex; subst oc r.
-    exists (a_max a'). split; [reflexivity|]. split; [reflexivity|].
-    split; [exact (proj1 Hw')|]. split; [exact Hb1|].
+    rewrite Hwarn in Ex. change (a_warn acc0 + 0 + 0 + 0 + 0) with 0 in Ex.
+    assert (El1 : N.of_nat l1 = o_acc1 st - o_acked st) by (unfold l1, wlen; cbn [lo hi]; lia).
+    assert (Elr : N.of_nat le + N.of_nat lr = o_acc2 st - o_compl st)
+      by (unfold le, lr, wlen; cbn [lo hi]; lia).
+    destruct (N.ltb_spec (norm_max m1) (N.of_nat l1)) as [L1|L1].
+    { cbn [orb] in Ex. inversion Ex; subst oc r. left. repeat split; auto. lia. }
+    destruct (N.ltb_spec (norm_max m2) (N.of_nat le + N.of_nat lr)) as [L2|L2].
+    { cbn [orb] in Ex. inversion Ex; subst oc r. left. repeat split; auto. lia. }
+    cbn [orb] in Ex. inversion Ex; subst oc r. right.
+    split; [lia|]. split; [lia|].
+    exists (a_max a'). split; [reflexivity|]. split; [reflexivity|]. split; [exact Hb1|].
     apply Hb2; [cbn; lia|].
     intros k raw p sq Hin Hk Hdec.
     apply (store_get_in m k raw Hndm) in Hin.
@@ -1025,36 +1139,37 @@ Section AdoptExact.
   Qed.
 End AdoptExact.
 
-Theorem adopt_exact : forall st cf m1 m2 tp oc r w,
-  OInv' st -> known_keys st -> markers_genuine st ->
-  Forall (fun b => b = false) (tp_stf tp) ->
+(* what [adopt_exact] says about the adopted client *)
+Definition adopt_spec (st : ost) (cf : scfg) (m1 m2 : Z) (c' : client) : Prop :=
+  k_cfg c' = adopt_cfg cf m1 m2 /\ k_seqclosed c' = false /\ k_closed c' = false
+  /\ (o_acked st < o_acc1 st ->
+      k_acked c' = o_acked st mod 16384 /\ k_acc1 c' - k_acked c' = o_acc1 st - o_acked st)
+  /\ (o_acked st = o_acc1 st -> k_acked c' = 0 /\ k_acc1 c' = 0)
+  /\ k_sub1 c' = k_acc1 c'
+  /\ (o_compl st < o_acc2 st ->
+      k_compl c' = o_compl st mod 16384
+      /\ k_recvd c' - k_compl c' = o_recvd st - o_compl st
+      /\ k_acc2 c' - k_compl c' = o_acc2 st - o_compl st)
+  /\ (o_compl st = o_acc2 st -> k_compl c' = 0 /\ k_recvd c' = 0 /\ k_acc2 c' = 0)
+  /\ k_sub2 c' = k_acc2 c'
+  /\ len (k_q1 c') = o_acc1 st - o_acked st /\ len (k_q2 c') = o_acc2 st - o_compl st
+  /\ (forall sq k v p, k <> 0 -> store_get (o_store st) k = Some v ->
+                       decode_value v = DecOk p sq -> sq <= k_rseq c')
+  /\ k_rseq c' <= o_rseq st
+  /\ OInv' (ost_of (mkSys c' (o_store st))).
+
+Lemma adopted_spec st cf m1 m2 amax :
+  OInv' st ->
   o_acc1 st - o_acked st <= norm_max m1 -> o_acc2 st - o_compl st <= norm_max m2 ->
-  op_adopt cf m1 m2 (world_of (o_store st) tp) = Some ((oc, r), w) ->
-  exists c',
-    oc = Some c' /\ r = RetAdopt 0 E_nil
-    /\ w_store w = Some (o_store st)
-    /\ k_cfg c' = adopt_cfg cf m1 m2
-    /\ (o_acked st < o_acc1 st ->
-        k_acked c' = o_acked st mod 16384 /\ k_acc1 c' - k_acked c' = o_acc1 st - o_acked st)
-    /\ (o_acked st = o_acc1 st -> k_acked c' = 0 /\ k_acc1 c' = 0)
-    /\ k_sub1 c' = k_acc1 c'
-    /\ (o_compl st < o_acc2 st ->
-        k_compl c' = o_compl st mod 16384
-        /\ k_recvd c' - k_compl c' = o_recvd st - o_compl st
-        /\ k_acc2 c' - k_compl c' = o_acc2 st - o_compl st)
-    /\ (o_compl st = o_acc2 st -> k_compl c' = 0 /\ k_recvd c' = 0 /\ k_acc2 c' = 0)
-    /\ k_sub2 c' = k_acc2 c'
-    /\ len (k_q1 c') = o_acc1 st - o_acked st /\ len (k_q2 c') = o_acc2 st - o_compl st
-    /\ (forall sq k v p, k <> 0 -> store_get (o_store st) k = Some v ->
-                         decode_value v = DecOk p sq -> sq <= k_rseq c')
-    /\ k_rseq c' <= o_rseq st
-    /\ OInv' (ost_of (mkSys c' (o_store st))).
+  seq_bound (o_store st) amax -> amax <= o_rseq st ->
+  adopt_spec st cf m1 m2
+    (mk_client (adopt_cfg cf m1 m2) amax (map key1 (nseq (o_acked st) (wlen st Alo)))
+               (map key2 (nseq (o_compl st + N.of_nat (wlen st Rel)) (wlen st Eo)))
+               (map key2 (nseq (o_compl st) (wlen st Rel)))).
 Proof.
-  intros st cf m1 m2 tp oc r w [HF [Hsorted Hseq]] Hkeys Hmark Hnofail Hlim1 Hlim2 E.
+  intros [HF [Hsorted Hseq]] Hlim1 Hlim2 Hb Hle. unfold adopt_spec.
   pose proof (ci_c1 st (oif_cnt st HF)) as C1. pose proof (ci_c2 st (oif_cnt st HF)) as C2.
   pose proof (norm_max_le m1) as N1. pose proof (norm_max_le m2) as N2.
-  destruct (adopt_result st HF Hsorted Hkeys Hmark Hseq cf m1 m2 tp Hnofail Hlim1 Hlim2 oc r w E)
-    as (amax & -> & -> & Hst & Hb & Hle).
   assert (Hndm : NoDup (map fst (o_store st))) by (apply sorted_nodup; exact Hsorted).
   set (l1 := wlen st Alo) in *. set (lr := wlen st Rel) in *. set (le := wlen st Eo) in *.
   assert (El1 : N.of_nat l1 = o_acc1 st - o_acked st) by (unfold l1, wlen; cbn [lo hi]; lia).
@@ -1065,13 +1180,21 @@ Proof.
   cbv zeta in S.
   match type of S with k_cfg ?c = _ /\ _ => set (c' := c) in * end.
   destruct S as (Scfg & Srseq & Sclosed & Sterm & Ssub1 & Ssub2 & Sq1 & Sq2 & S10 & S11 & S20 & S21).
+  (* hide the remainders from lia *)
+  assert (Ham : exists q, o_acked st = o_acked st mod 16384 + 16384 * q)
+    by (exists (o_acked st / 16384); clear; lia).
+  assert (Hcm : exists q, o_compl st = o_compl st mod 16384 + 16384 * q)
+    by (exists (o_compl st / 16384); clear; lia).
+  destruct Ham as [q1 Ham]. destruct Hcm as [q2 Hcm].
+  set (am := o_acked st mod 16384) in *. set (cm := o_compl st mod 16384) in *.
+  clearbody am cm.
   assert (A1 : k_acc1 c' = k_acked c' + N.of_nat l1).
   { destruct (Nat.eq_dec l1 0) as [Z|NZ]; [destruct (S10 Z) as [-> ->]; lia|destruct (S11 NZ) as [-> ->]; lia]. }
   assert (A2 : k_recvd c' = k_compl c' + N.of_nat lr /\ k_acc2 c' = k_compl c' + N.of_nat lr + N.of_nat le).
   { destruct (Nat.eq_dec (lr + le) 0) as [Z|NZ];
       [destruct (S20 Z) as (-> & -> & ->); lia|destruct (S21 NZ) as (-> & -> & ->); lia]. }
   destruct A2 as [A2 A3].
-  exists c'. split; [reflexivity|]. split; [reflexivity|]. split; [exact Hst|]. split; [exact Scfg|].
+  split; [exact Scfg|]. split; [exact Sterm|]. split; [exact Sclosed|].
   split. { intros Hlt. destruct (S11 ltac:(lia)) as [-> ->]. split; [reflexivity|lia]. }
   split. { intros Heq. apply S10. lia. }
   split; [exact Ssub1|].
@@ -1096,48 +1219,103 @@ Proof.
     apply (SInv_rebase _ _ _ _ _ _ _ _ _ _ _ _ _ (oif_sto st HF)); [lia|lia| | |].
     + destruct (Nat.eq_dec l1 0) as [Z|NZ].
       * left. destruct (S10 Z) as [-> ->]. split; [lia|reflexivity].
-      * right. exists (o_acked st / 16384). destruct (S11 NZ) as [-> ->]. lia.
+      * right. exists q1. destruct (S11 NZ) as [-> ->]. lia.
     + destruct (Nat.eq_dec (lr + le) 0) as [Z|NZ].
       * left. destruct (S20 Z) as (-> & -> & ->). split; [lia|]. split; reflexivity.
-      * right. exists (o_compl st / 16384). destruct (S21 NZ) as (-> & -> & ->). lia.
+      * right. exists q2. destruct (S21 NZ) as (-> & -> & ->). lia.
     + intros k p sq Hh Hk Hsle. apply (Hsq sq k _ p Hk Hh). apply decode_encode. lia.
   - exact Hsorted.
   - cbn [ost_of sy_c o_rseq]. lia.
 Qed.
 
-(* The hypotheses of [adopt_exact] hold again for the adopted state (with the same
-   limits): any number of restarts. *)
-Theorem adopt_restartable : forall st cf m1 m2 tp c' r w,
+(* C02, main statement: no Persistence failure, limits not below the pending windows *)
+Theorem adopt_exact : forall st cf m1 m2 tp oc r w,
   OInv' st -> known_keys st -> markers_genuine st ->
   Forall (fun b => b = false) (tp_stf tp) ->
   o_acc1 st - o_acked st <= norm_max m1 -> o_acc2 st - o_compl st <= norm_max m2 ->
+  op_adopt cf m1 m2 (world_of (o_store st) tp) = Some ((oc, r), w) ->
+  exists c',
+    oc = Some c' /\ r = RetAdopt 0 E_nil
+    /\ w_store w = Some (o_store st)
+    /\ k_cfg c' = adopt_cfg cf m1 m2 /\ k_seqclosed c' = false /\ k_closed c' = false
+    /\ (o_acked st < o_acc1 st ->
+        k_acked c' = o_acked st mod 16384 /\ k_acc1 c' - k_acked c' = o_acc1 st - o_acked st)
+    /\ (o_acked st = o_acc1 st -> k_acked c' = 0 /\ k_acc1 c' = 0)
+    /\ k_sub1 c' = k_acc1 c'
+    /\ (o_compl st < o_acc2 st ->
+        k_compl c' = o_compl st mod 16384
+        /\ k_recvd c' - k_compl c' = o_recvd st - o_compl st
+        /\ k_acc2 c' - k_compl c' = o_acc2 st - o_compl st)
+    /\ (o_compl st = o_acc2 st -> k_compl c' = 0 /\ k_recvd c' = 0 /\ k_acc2 c' = 0)
+    /\ k_sub2 c' = k_acc2 c'
+    /\ len (k_q1 c') = o_acc1 st - o_acked st /\ len (k_q2 c') = o_acc2 st - o_compl st
+    /\ (forall sq k v p, k <> 0 -> store_get (o_store st) k = Some v ->
+                         decode_value v = DecOk p sq -> sq <= k_rseq c')
+    /\ k_rseq c' <= o_rseq st
+    /\ OInv' (ost_of (mkSys c' (o_store st))).
+Proof.
+  intros st cf m1 m2 tp oc r w HI Hkeys Hmark Hnofail Hlim1 Hlim2 E.
+  destruct HI as [HF [Hsorted Hseq]].
+  destruct (adopt_result st HF Hsorted Hkeys Hmark Hseq cf m1 m2 (world_of (o_store st) tp) oc r w
+              eq_refl E) as [Hst [[Hn _]|[[Hn _]|(_ & _ & amax & -> & -> & Hb & Hle)]]].
+  - exfalso. apply Hn. exact Hnofail.
+  - exfalso. apply Hn. split; assumption.
+  - eexists. split; [reflexivity|]. split; [reflexivity|]. split; [exact Hst|].
+    apply (adopted_spec st cf m1 m2 amax); auto. split; auto.
+Qed.
+
+(* whenever AdoptSession returns a client at all (any failure script, any limits) *)
+Theorem adopt_some : forall st cf m1 m2 tp c' r w,
+  OInv' st -> known_keys st -> markers_genuine st ->
   op_adopt cf m1 m2 (world_of (o_store st) tp) = Some ((Some c', r), w) ->
-  let st' := ost_of (mkSys c' (store_of_world w)) in
-  o_store st' = o_store st
-  /\ OInv' st' /\ known_keys st' /\ markers_genuine st'
+  r = RetAdopt 0 E_nil /\ w_store w = Some (o_store st)
+  /\ o_acc1 st - o_acked st <= norm_max m1 /\ o_acc2 st - o_compl st <= norm_max m2
+  /\ adopt_spec st cf m1 m2 c'.
+Proof.
+  intros st cf m1 m2 tp c' r w HI Hkeys Hmark E.
+  destruct HI as [HF [Hsorted Hseq]].
+  destruct (adopt_result st HF Hsorted Hkeys Hmark Hseq cf m1 m2 (world_of (o_store st) tp) _ r w
+              eq_refl E) as [Hst [[_ Ho]|[(_ & Ho & _)|(L1 & L2 & amax & Ec & -> & Hb & Hle)]]];
+    [discriminate|discriminate|].
+  inversion Ec; subst c'.
+  split; [reflexivity|]. split; [exact Hst|]. split; [exact L1|]. split; [exact L2|].
+  apply (adopted_spec st cf m1 m2 amax); auto. split; auto.
+Qed.
+
+(* composition with the abstract transition system: [adopts] keeps the working
+   invariant and its two side conditions; the store and the three windows are unchanged *)
+Theorem adopts_inv : forall st st',
+  OInv' st -> known_keys st -> markers_genuine st -> adopts st st' ->
+  OInv' st' /\ known_keys st' /\ markers_genuine st'
+  /\ o_store st' = o_store st
   /\ o_acc1 st' - o_acked st' = o_acc1 st - o_acked st
   /\ o_acc2 st' - o_compl st' = o_acc2 st - o_compl st
-  /\ o_recvd st' - o_compl st' = o_recvd st - o_compl st.
+  /\ o_recvd st' - o_compl st' = o_recvd st - o_compl st
+  /\ o_term st' = false /\ o_closed st' = false.
 Proof.
-  intros st cf m1 m2 tp c' r w HI Hkeys Hmark Hnofail Hlim1 Hlim2 E.
+  intros st st' HI Hkeys Hmark (cf & m1 & m2 & tp & c' & r & w & E & ->).
   pose proof (ci_c1 st (oif_cnt st (proj1 HI))) as C1.
   pose proof (ci_c2 st (oif_cnt st (proj1 HI))) as C2.
   assert (Hseq : o_rseq st < M64) by apply HI.
-  destruct (adopt_exact st cf m1 m2 tp _ r w HI Hkeys Hmark Hnofail Hlim1 Hlim2 E)
-    as (c'' & Ec & _ & Hst & _ & W1 & W1' & _ & W2 & W2' & _ & _ & _ & Hsq & _ & HI').
-  inversion Ec; subst c''. clear Ec.
-  unfold store_of_world. rewrite Hst. cbv zeta.
-  split; [reflexivity|]. split; [exact HI'|].
-  split; [exact Hkeys|]. split.
-  - intros k v Hg Hb. cbn [ost_of sy_c sy_m o_store o_rseq] in *.
+  destruct (adopt_some st cf m1 m2 tp c' r w HI Hkeys Hmark E)
+    as (_ & Hst & _ & _ & Hcfg & Hterm & Hclosed & W1 & W1' & _ & W2 & W2' & _ & _ & _ & Hsq & _ & HI').
+  unfold store_of_world. rewrite Hst.
+  split; [exact HI'|]. split; [exact Hkeys|]. split.
+  { intros k v Hg Hb. cbn [ost_of sy_c sy_m o_store o_rseq] in *.
     destruct (Hmark k v Hg Hb) as (p & sq & -> & Hle). exists p, sq. split; [reflexivity|].
-    apply (Hsq sq k (encode_value p sq) p); [intros ->; discriminate|exact Hg|apply decode_encode; lia].
-  - cbn [ost_of sy_c sy_m o_acked o_acc1 o_compl o_recvd o_acc2].
-    destruct (N.eq_dec (o_acked st) (o_acc1 st)) as [E1|N1];
+    apply (Hsq sq k (encode_value p sq) p); [intros ->; discriminate|exact Hg|apply decode_encode; lia]. }
+  split; [reflexivity|].
+  cbn [ost_of sy_c sy_m o_acked o_acc1 o_compl o_recvd o_acc2 o_term o_closed].
+  assert (Hwin : k_acc1 c' - k_acked c' = o_acc1 st - o_acked st
+                 /\ k_acc2 c' - k_compl c' = o_acc2 st - o_compl st
+                 /\ k_recvd c' - k_compl c' = o_recvd st - o_compl st).
+  { destruct (N.eq_dec (o_acked st) (o_acc1 st)) as [E1|N1];
       [destruct (W1' E1) as [-> ->]|destruct (W1 ltac:(lia)) as [_ ->]];
       (destruct (N.eq_dec (o_compl st) (o_acc2 st)) as [E2|N2];
        [destruct (W2' E2) as (-> & -> & ->)|destruct (W2 ltac:(lia)) as (_ & -> & ->)]);
-      repeat split; lia.
+      repeat split; lia. }
+  destruct Hwin as (H1 & H2 & H3).
+  split; [exact H1|]. split; [exact H2|]. split; [exact H3|]. split; assumption.
 Qed.
 
 (* ------------------------------------------------------------------ *)
@@ -1145,11 +1323,21 @@ Qed.
    "if txs.Received < txs.Completed"): with a full window of 16384 pending PUBRELs that
    does not start at an identifier 0, received = completed: the releases were forgotten
    while 16384 placeholders filled the queue.  Repaired in /repo (and in Session.v). *)
+Lemma k_recvd_lvl2_set c a b d e :
+  k_recvd (c <| k_compl := a |> <| k_recvd := b |> <| k_acc2 := d |> <| k_sub2 := e |>) = b.
+Proof. reflexivity. Qed.
+
 Definition recvd_pinned (rel : list N) (compl : N) : N :=
   match rel with
   | [] => compl
   | _ => let r := N.land (lastk rel) id_mask + 1 in if r <? compl then r + 16384 else r
   end.
+
+Lemma pinned_arith x :
+  x mod 16384 <> 0 ->
+  (if (x + 16383) mod 16384 + 1 <? x mod 16384
+   then (x + 16383) mod 16384 + 1 + 16384 else (x + 16383) mod 16384 + 1) = x mod 16384.
+Proof. intros H. destruct (N.ltb_spec ((x + 16383) mod 16384 + 1) (x mod 16384)); lia. Qed.
 
 Lemma adopt_recvd_pinned_refuted cm :
   cm mod 16384 <> 0 ->
@@ -1161,11 +1349,375 @@ Proof.
   pose proof (nseq_last (N.to_nat 16383) cm key2) as E. rewrite N2Nat.id in E.
   cbv zeta. split.
   - unfold recvd_pinned, lastk, first_or. cbn [nseq map] in E |- *. rewrite E.
-    cbv zeta. rewrite !land_mask, !key2_mod.
-    destruct (N.ltb_spec ((cm + 16383) mod 16384 + 1) (cm mod 16384)); lia.
-  - intros c. rewrite <- (N2Nat.id 16383) at 1.
-    change (map key2 (nseq cm (S (N.to_nat 16383))))
-      with (map key2 (nseq cm (S (N.to_nat 16383)))).
+    cbv zeta. rewrite !land_mask, !key2_mod. apply pinned_arith. exact Hnz.
+  - intros c.
     pose proof (c_lvl2_window cm (S (N.to_nat 16383)) 0 c ltac:(lia) ltac:(lia)) as W.
-    cbn [nseq map] in W |- *. rewrite W. cbn. lia.
+    cbn [nseq map] in W |- *. rewrite W, k_recvd_lvl2_set. lia.
+Qed.
+
+(* ------------------------------------------------------------------ *)
+(* C16 groundwork: adoption of an arbitrarily damaged store            *)
+
+Definition decodable (v : list N) : bool :=
+  match decode_value v with DecOk _ _ => true | _ => false end.
+Definition bad_ent (e : N * list N) : bool := negb (fst e =? 0) && negb (decodable (snd e)).
+Definition count_bad (m : store) : N := N.of_nat (length (filter bad_ent m)).
+Definition is_bad (m : store) (k : N) : bool := existsb (fun e => (fst e =? k) && bad_ent e) m.
+Definition purge_bad (ents m : store) : store :=
+  fold_left (fun m e => if bad_ent e then store_del m (fst e) else m) ents m.
+(* a record that carries a valid checksum over an empty packet: never written by the client *)
+Definition forged_empty (m : store) : Prop :=
+  exists k v sq, In (k, v) m /\ k <> 0 /\ N.testbit k 16 = false /\ decode_value v = DecOk [] sq.
+
+Lemma scan_pure_general ents : forall a m,
+  match scan_pure ents a m with
+  | (inl a', m') => a_warn a' = a_warn a + N.of_nat (length (filter bad_ent ents))
+                    /\ m' = purge_bad ents m
+  | (inr e, _) => e = E_other /\ forged_empty ents
+  end.
+Proof.
+  induction ents as [|[k raw] ents IH]; intros a m.
+  - cbn. split; [lia|reflexivity].
+  - cbn [scan_pure filter purge_bad fold_left].
+    assert (Hbe : bad_ent (k, raw) = negb (k =? 0) && negb (decodable raw)) by reflexivity.
+    rewrite !Hbe. clear Hbe. unfold decodable. cbn [fst snd].
+    assert (Hfe : forall e, e = E_other /\ forged_empty ents ->
+                            e = E_other /\ forged_empty ((k, raw) :: ents)).
+    { intros e [-> (k' & v' & sq' & Hin & H)]. split; [reflexivity|].
+      exists k', v', sq'. split; [right; exact Hin|exact H]. }
+    destruct (N.eqb_spec k 0) as [->|Hk]; cbn [negb andb].
+    + specialize (IH a m). destruct (scan_pure ents a m) as [[a'|e] m']; auto.
+    + destruct (decode_value raw) as [packet sq| |] eqn:Hd; cbn [negb].
+      * destruct (N.testbit k 16) eqn:Hbit.
+        -- specialize (IH (a <| a_max := N.max (a_max a) sq |>) m).
+           destruct (scan_pure ents _ m) as [[a'|e] m']; auto.
+        -- destruct packet as [|h body].
+           ++ split; [reflexivity|]. exists k, raw, sq. split; [left; reflexivity|auto].
+           ++ specialize (IH (acc_class k h sq (a <| a_max := N.max (a_max a) sq |>)) m).
+              destruct (scan_pure ents _ m) as [[a'|e] m']; auto.
+              rewrite acc_class_warn in IH. exact IH.
+      * specialize (IH (a <| a_warn ::= N.succ |>) (store_del m k)).
+        destruct (scan_pure ents _ (store_del m k)) as [[a'|e] m']; auto.
+        destruct IH as [-> ->]. split; [|reflexivity]. cbn [length a_warn]. cbn. lia.
+      * specialize (IH (a <| a_warn ::= N.succ |>) (store_del m k)).
+        destruct (scan_pure ents _ (store_del m k)) as [[a'|e] m']; auto.
+        destruct IH as [-> ->]. split; [|reflexivity]. cbn [length a_warn]. cbn. lia.
+Qed.
+
+Lemma purge_bad_spec ents : forall m,
+  sorted_keys m ->
+  sorted_keys (purge_bad ents m)
+  /\ forall k, store_get (purge_bad ents m) k = if is_bad ents k then None else store_get m k.
+Proof.
+  induction ents as [|e ents IH]; intros m Hs.
+  - split; [exact Hs|reflexivity].
+  - cbn [purge_bad fold_left is_bad existsb]. fold (purge_bad ents). fold (is_bad ents).
+    destruct (bad_ent e) eqn:Hb.
+    + destruct (IH (store_del m (fst e)) (sorted_keys_del _ _ Hs)) as [Hs' Hg].
+      split; [exact Hs'|]. intros k. rewrite Hg, (store_get_del _ _ _ Hs).
+      rewrite andb_true_r, (N.eqb_sym (fst e) k).
+      destruct (k =? fst e); cbn [orb]; [destruct (is_bad ents k); reflexivity|reflexivity].
+    + destruct (IH m Hs) as [Hs' Hg]. split; [exact Hs'|]. intros k.
+      rewrite Hg, andb_false_r. reflexivity.
+Qed.
+
+Lemma ask_store_total w m q :
+  mapw w m -> t_stf w <> [] ->
+  match q with QList | QLoad _ | QSave _ _ | QDelete _ => True | _ => False end ->
+  exists a w', ask_store q w = Some (a, w') /\ length (t_stf w) = S (length (t_stf w')).
+Proof.
+  intros [Hs Hf] Hne Hq. unfold ask_store. rewrite Hs.
+  destruct (t_stf w) as [|[|] t]; [congruence|inversion Hf; discriminate|].
+  destruct q; try contradiction; eexists _, _; (split; [reflexivity|reflexivity]).
+Qed.
+
+Lemma adopt_scan_total keys : forall a m w,
+  mapw w m -> (2 * length keys <= length (t_stf w))%nat ->
+  exists r w', adopt_scan keys a w = Some (r, w').
+Proof.
+  induction keys as [|k keys IH]; intros a m w Hw Hlen.
+  - eexists _, _. reflexivity.
+  - cbn [adopt_scan]. cbn [length] in Hlen. destruct (k =? 0); [apply (IH _ m); [exact Hw|lia]|].
+    unfold bind at 1.
+    destruct (ask_store_total w m (QLoad k) Hw) as (ans & w1 & A & L1); [intros Hn; rewrite Hn in Hlen; cbn in Hlen; lia|exact I|].
+    rewrite A. destruct (ask_store_mapw _ _ _ _ _ Hw A) as [-> Hw1].
+    destruct (decode_value _) as [packet sq| |].
+    + destruct (N.testbit k 16); [apply (IH _ m); [exact Hw1|lia]|].
+      destruct packet; [eexists _, _; reflexivity|apply (IH _ m); [exact Hw1|lia]].
+    + unfold bind at 1. unfold store_delete. unfold bind at 1.
+      destruct (ask_store_total w1 m (QDelete k) Hw1) as (ans & w2 & D & L2); [intros Hn; rewrite Hn in L1; cbn in L1; lia|exact I|].
+      rewrite D. destruct (ask_store_mapw _ _ _ _ _ Hw1 D) as [-> Hw2]. cbn [ret].
+      apply (IH _ (store_del m k)); [exact Hw2|lia].
+    + unfold bind at 1. unfold store_delete. unfold bind at 1.
+      destruct (ask_store_total w1 m (QDelete k) Hw1) as (ans & w2 & D & L2); [intros Hn; rewrite Hn in L1; cbn in L1; lia|exact I|].
+      rewrite D. destruct (ask_store_mapw _ _ _ _ _ Hw1 D) as [-> Hw2]. cbn [ret].
+      apply (IH _ (store_del m k)); [exact Hw2|lia].
+Qed.
+
+Lemma op_adopt_total cf max1z max2z w m :
+  mapw w m -> (2 * length m + 1 <= length (t_stf w))%nat ->
+  exists x w', op_adopt cf max1z max2z w = Some (x, w').
+Proof.
+  intros Hw Hlen. unfold op_adopt. unfold bind at 1.
+  destruct (ask_store_total w m QList Hw) as (ans & w1 & A & L1); [intros Hn; rewrite Hn in Hlen; cbn in Hlen; lia|exact I|].
+  rewrite A. destruct (ask_store_mapw _ _ _ _ _ Hw A) as [-> Hw1].
+  unfold bind at 1.
+  destruct (adopt_scan_total (map fst m) (mkAcc [] [] [] 0 0) m w1 Hw1) as (r & w2 & S);
+    [rewrite map_length; lia|].
+  rewrite S. destruct r as [acc|e]; [|eexists _, _; reflexivity].
+  destruct (clean_seq (keys_of (a_alo acc))) as [alo g1].
+  destruct (clean_seq (keys_of (a_eo acc))) as [eo g2].
+  destruct (clean_seq (keys_of (a_rel acc))) as [rel g3].
+  cbv beta iota zeta.
+  match goal with |- exists _ _, (if ?b then _ else _) _ = _ => destruct b end;
+    eexists _, _; reflexivity.
+Qed.
+
+Lemma adopt_finish_warn cf max1z max2z acc :
+  exists oc n e, adopt_finish cf max1z max2z (inl acc) = (oc, RetAdopt n e) /\ a_warn acc <= n.
+Proof.
+  unfold adopt_finish.
+  destruct (clean_seq (keys_of (a_alo acc))) as [alo g1].
+  destruct (clean_seq (keys_of (a_eo acc))) as [eo g2].
+  destruct (clean_seq (keys_of (a_rel acc))) as [rel g3].
+  unfold adopt_build, adopt_build2. cbv zeta.
+  match goal with |- exists _ _ _, (if ?b then _ else _) = _ /\ _ => destruct b end;
+    eexists _, _, _; (split; [reflexivity|lia]).
+Qed.
+
+(* Any store with ascending keys, any values (damage), no Persistence failures and a
+   long enough failure script: AdoptSession terminates; it takes the branch where the Go
+   code indexes an empty packet only if a record with a valid checksum over an empty
+   packet exists; otherwise every undecodable record (other than key 0) is deleted,
+   everything else is kept, and each deletion is counted in the warnings. *)
+Theorem adopt_total_genuine : forall m cf m1 m2 tp,
+  sorted_keys m -> Forall (fun b => b = false) (tp_stf tp) ->
+  (2 * length m + 1 <= length (tp_stf tp))%nat ->
+  exists oc n e w m',
+    op_adopt cf m1 m2 (world_of m tp) = Some ((oc, RetAdopt n e), w) /\ w_store w = Some m'
+    /\ ((oc = None /\ n = 0 /\ e = E_other /\ forged_empty m)
+        \/ (count_bad m <= n /\ sorted_keys m'
+            /\ forall k, store_get m' k = if is_bad m k then None else store_get m k)).
+Proof.
+  intros m cf m1 m2 tp Hs Hnf Hlen.
+  assert (Hw : mapw (world_of m tp) m) by (split; [reflexivity|exact Hnf]).
+  destruct (op_adopt_total cf m1 m2 _ m Hw Hlen) as (x & w & E).
+  destruct (op_adopt_map cf m1 m2 _ m x w Hw (sorted_nodup m Hs) E) as [-> Hw'].
+  pose proof (scan_pure_general m acc0 m) as G.
+  destruct (scan_pure m acc0 m) as [[a'|e] m'] eqn:Esp; cbn [fst snd] in *.
+  - destruct G as [Gw ->].
+    destruct (adopt_finish_warn cf m1 m2 a') as (oc & n & e & Ef & Hle).
+    rewrite Ef in E. exists oc, n, e, w, (purge_bad m m).
+    split; [exact E|]. split; [exact (proj1 Hw')|]. right.
+    destruct (purge_bad_spec m m Hs) as [Hs' Hg].
+    split; [unfold count_bad; cbn [acc0 a_warn] in Gw; lia|]. split; assumption.
+  - destruct G as [-> Hf]. exists None, 0, E_other, w, m'.
+    split; [exact E|]. split; [exact (proj1 Hw')|]. left. auto.
+Qed.
+
+(* ------------------------------------------------------------------ *)
+(* The order in which List returns the keys does not matter            *)
+
+Lemma le_nodup_lt t : StronglySorted le_snd t -> NoDup (map snd t) -> StronglySorted lt_snd t.
+Proof.
+  induction t as [|x t IH]; intros Hs Hn; [constructor|].
+  apply StronglySorted_inv in Hs. destruct Hs as [Hs Hx]. cbn [map] in Hn.
+  inversion Hn as [|? ? Hni Hn']; subst.
+  constructor; [apply IH; assumption|].
+  rewrite Forall_forall in *. intros y Hy. specialize (Hx y Hy). unfold le_snd, lt_snd in *.
+  assert (snd x <> snd y) by (intros E; apply Hni; rewrite E; apply in_map; exact Hy). lia.
+Qed.
+
+Lemma sort_perm_eq l l' :
+  Permutation l l' -> NoDup (map snd l) -> sort_by_seq l = sort_by_seq l'.
+Proof.
+  intros Hp Hn. apply sorted_unique.
+  - apply sort_sorted.
+  - apply le_nodup_lt; [apply sort_sorted|].
+    eapply Permutation_NoDup; [|exact Hn]. apply Permutation_map.
+    rewrite <- sort_perm. exact Hp.
+  - rewrite <- !sort_perm. exact Hp.
+Qed.
+
+Lemma adopt_finish_ext cf max1z max2z a1 a2 :
+  a_warn a1 = a_warn a2 -> a_max a1 = a_max a2 ->
+  (forall c, keys_of (acc_get c a1) = keys_of (acc_get c a2)) ->
+  adopt_finish cf max1z max2z (inl a1) = adopt_finish cf max1z max2z (inl a2).
+Proof.
+  intros Hw Hm Hk. unfold adopt_finish.
+  change (a_alo a1) with (acc_get Alo a1). change (a_eo a1) with (acc_get Eo a1).
+  change (a_rel a1) with (acc_get Rel a1).
+  rewrite !Hk, Hw, Hm. reflexivity.
+Qed.
+
+(* the pure scan does not depend on the order of the entries, provided the storage
+   numbers inside each group are pairwise different (they are: the counter only grows) *)
+Lemma scan_pure_perm ents ents' cf max1z max2z m m' :
+  Permutation ents ents' -> Forall ent_ok ents ->
+  (forall c, NoDup (map snd (flat_map (ent_sel c) ents))) ->
+  adopt_finish cf max1z max2z (fst (scan_pure ents acc0 m))
+  = adopt_finish cf max1z max2z (fst (scan_pure ents' acc0 m')).
+Proof.
+  intros Hp Hok Hnd.
+  assert (Hok' : Forall ent_ok ents') by (eapply Permutation_Forall; eassumption).
+  destruct (scan_pure_ok ents acc0 m Hok) as (a1 & E1 & W1 & G1 & _ & B1 & U1).
+  destruct (scan_pure_ok ents' acc0 m' Hok') as (a2 & E2 & W2 & G2 & _ & B2 & U2).
+  rewrite E1, E2. cbn [fst].
+  assert (Hsb : forall B, seq_bound ents B <-> seq_bound ents' B).
+  { intros B. unfold seq_bound. split; intros H k raw p sq Hin; apply H.
+    - eapply Permutation_in; [apply Permutation_sym; exact Hp|exact Hin].
+    - eapply Permutation_in; [exact Hp|exact Hin]. }
+  apply adopt_finish_ext.
+  - congruence.
+  - apply N.le_antisymm.
+    + apply U1; [cbn; lia|]. apply Hsb. exact B2.
+    + apply U2; [cbn; lia|]. apply Hsb. exact B1.
+  - intros c. rewrite G1, G2. unfold keys_of. f_equal.
+    replace (acc_get c acc0) with (@nil (N * N)) by (destruct c; reflexivity).
+    rewrite !app_nil_r. apply sort_perm_eq.
+    + rewrite <- !Permutation_rev. apply Permutation_flat_map. exact Hp.
+    + eapply Permutation_NoDup; [|exact (Hnd c)]. apply Permutation_map. apply Permutation_rev.
+Qed.
+
+(* tape mode: the scripted Persistence answers for a list of genuine entries *)
+Definition tape_of (ents : store) : list sans :=
+  flat_map (fun e => if fst e =? 0 then [] else [SVal (Some (snd e))]) ents.
+
+Lemma adopt_scan_tape ents : forall a w rest m0,
+  w_store w = None -> Forall ent_ok ents -> t_st w = tape_of ents ++ rest ->
+  exists w', adopt_scan (map fst ents) a w = Some (fst (scan_pure ents a m0), w')
+             /\ w_store w' = None /\ t_st w' = rest.
+Proof.
+  induction ents as [|[k raw] ents IH]; intros a w rest m0 Hw Hok Ht.
+  - exists w. cbn in *. auto.
+  - inversion Hok as [|? ? Hk Hok']; subst.
+    cbn [map fst adopt_scan scan_pure tape_of flat_map] in *. fold (tape_of ents) in Ht.
+    destruct (N.eqb_spec k 0) as [->|Hk0]; [apply IH; assumption|].
+    destruct Hk as [Hk|(p & sq & Hraw & Hsq & Hp)]; [cbn in Hk; congruence|].
+    cbn [fst snd app] in *. subst raw.
+    unfold bind at 1. unfold ask_store at 1. rewrite Hw, Ht.
+    rewrite (decode_encode p sq Hsq).
+    destruct (N.testbit k 16).
+    + apply IH; [exact Hw|exact Hok'|reflexivity].
+    + destruct Hp as [Hp|Hp]; [discriminate|]. destruct p as [|h body]; [congruence|].
+      apply IH; [exact Hw|exact Hok'|reflexivity].
+Qed.
+
+Lemma op_adopt_tape cf max1z max2z ents w rest x wr :
+  w_store w = None -> Forall ent_ok ents ->
+  t_st w = SKeys (map fst ents) :: tape_of ents ++ rest ->
+  op_adopt cf max1z max2z w = Some (x, wr) ->
+  x = adopt_finish cf max1z max2z (fst (scan_pure ents acc0 [])).
+Proof.
+  intros Hw Hok Ht E. unfold op_adopt in E. unfold bind in E at 1.
+  unfold ask_store in E at 1. rewrite Hw, Ht in E.
+  unfold bind in E at 1.
+  match type of E with context [adopt_scan _ _ ?w1] =>
+    destruct (adopt_scan_tape ents (mkAcc [] [] [] 0 0) w1 rest [] Hw Hok eq_refl) as (w2 & S & _ & _)
+  end.
+  rewrite S in E. change (mkAcc [] [] [] 0 0) with acc0 in E.
+  destruct (fst (scan_pure ents acc0 [])) as [acc|e].
+  - unfold adopt_finish.
+    destruct (clean_seq (keys_of (a_alo acc))) as [alo g1].
+    destruct (clean_seq (keys_of (a_eo acc))) as [eo g2].
+    destruct (clean_seq (keys_of (a_rel acc))) as [rel g3].
+    cbv beta iota zeta in E.
+    match type of E with
+    | (if ?b then ret ?X else ret ?Y) _ = _ =>
+      assert (E' : Some ((if b then X else Y), w2) = Some (x, wr))
+        by (rewrite <- E; destruct b; reflexivity)
+    end.
+    inversion E'; subst. reflexivity.
+  - unfold ret in E. inversion E; subst. reflexivity.
+Qed.
+
+(* Two scripted Persistences that hold the same genuine records and answer List in
+   different orders give the same client, warnings and error. *)
+Theorem adopt_order_independent : forall ents ents' cf m1 m2 w w' rest rest' x x' wr wr',
+  Permutation ents ents' -> Forall ent_ok ents ->
+  (forall c, NoDup (map snd (flat_map (ent_sel c) ents))) ->
+  w_store w = None -> w_store w' = None ->
+  t_st w = SKeys (map fst ents) :: tape_of ents ++ rest ->
+  t_st w' = SKeys (map fst ents') :: tape_of ents' ++ rest' ->
+  op_adopt cf m1 m2 w = Some (x, wr) -> op_adopt cf m1 m2 w' = Some (x', wr') ->
+  x = x'.
+Proof.
+  intros ents ents' cf m1 m2 w w' rest rest' x x' wr wr' Hp Hok Hnd Hw Hw' Ht Ht' E E'.
+  assert (Hok' : Forall ent_ok ents') by (eapply Permutation_Forall; eassumption).
+  rewrite (op_adopt_tape _ _ _ _ _ _ _ _ Hw Hok Ht E).
+  rewrite (op_adopt_tape _ _ _ _ _ _ _ _ Hw' Hok' Ht' E').
+  apply scan_pure_perm; assumption.
+Qed.
+
+(* ------------------------------------------------------------------ *)
+(* Non-vacuity: a reachable abstract state with all three groups populated and a
+   reception marker satisfies every hypothesis of [adopt_exact]                    *)
+
+Definition ex_cfg : scfg :=
+  {| s_cfg := {| cfg_user := []; cfg_pass := None; cfg_will := None;
+                 cfg_keepalive := 0; cfg_clean := false |};
+     s_pause := false; s_max1 := 16384; s_max2 := 16384; s_rcap := 4096;
+     s_wmin := 0; s_wmax := 0 |}.
+
+Example adopt_exact_nonvacuous :
+  exists st tp oc r w,
+    OInv' st /\ known_keys st /\ markers_genuine st
+    /\ Forall (fun b => b = false) (tp_stf tp)
+    /\ o_acc1 st - o_acked st <= norm_max 10 /\ o_acc2 st - o_compl st <= norm_max 10
+    /\ o_acked st < o_acc1 st /\ o_compl st < o_recvd st /\ o_recvd st < o_acc2 st
+    /\ op_adopt ex_cfg 10 10 (world_of (o_store st) tp) = Some ((oc, r), w).
+Proof.
+  set (st0 := mkOst 16384 16384 0 0 0 [] 0 0 0 0 [] false false 1 [(0, encode_value [99] 1)]).
+  assert (Htc : topic_check [97] = None) by (vm_compute; reflexivity).
+  assert (Hsz1 : publish_size [97] [] alo_space <= packet_max) by (vm_compute; discriminate).
+  assert (Hsz2 : publish_size [97] [] eo_space <= packet_max) by (vm_compute; discriminate).
+  pose proof (OS_accept1 st0 false [97] [] 0 (o_sub1 st0) eq_refl eq_refl eq_refl Htc Hsz1
+                (or_introl eq_refl)) as S1.
+  match type of S1 with ostep _ ?s => set (st1 := s) in * end.
+  pose proof (OS_accept2 st1 false [97] [] 0 (o_sub2 st1) eq_refl eq_refl eq_refl Htc Hsz2
+                (or_introl eq_refl)) as S2.
+  match type of S2 with ostep _ ?s => set (st2 := s) in * end.
+  pose proof (OS_accept2 st2 true [97] [98] 0 (o_sub2 st2) eq_refl eq_refl eq_refl Htc Hsz2
+                (or_introl eq_refl)) as S3.
+  match type of S3 with ostep _ ?s => set (st3 := s) in * end.
+  pose proof (OS_rec2 st3 eq_refl) as S4.
+  match type of S4 with ostep _ ?s => set (st4 := s) in * end.
+  pose proof (OS_marker_save st4 65537 [80; 2; 0; 1] eq_refl) as S5.
+  match type of S5 with ostep _ ?s => set (st5 := s) in * end.
+  assert (H0 : OInv' st0) by (apply oinv_init; lia).
+  assert (H1 : OInv' st1) by (apply (oinv_step _ _ H0 S1); reflexivity).
+  assert (H2 : OInv' st2) by (apply (oinv_step _ _ H1 S2); reflexivity).
+  assert (H3 : OInv' st3) by (apply (oinv_step _ _ H2 S3); reflexivity).
+  assert (H4 : OInv' st4) by (apply (oinv_step _ _ H3 S4); reflexivity).
+  assert (H5 : OInv' st5) by (apply (oinv_step _ _ H4 S5); reflexivity).
+  set (tp := mkTapes (repeat false 20) [] [] []).
+  assert (Hnf : Forall (fun b => b = false) (tp_stf tp)).
+  { unfold tp. cbn [tp_stf]. apply Forall_forall. intros b Hb. exact (repeat_spec _ _ _ Hb). }
+  assert (Hw : mapw (world_of (o_store st5) tp) (o_store st5)) by (split; [reflexivity|exact Hnf]).
+  destruct (op_adopt_total ex_cfg 10 10 _ _ Hw) as ([oc r] & w & E).
+  { vm_compute. repeat constructor. }
+  exists st5, tp, oc, r, w.
+  split; [exact H5|].
+  assert (Estore : exists v0 v1 v2 v3 v4,
+             o_store st5 = [(0, v0); (key1 0, v1); (key2 0, v2); (key2 1, v3); (65537, v4)]
+             /\ v4 = encode_value [80; 2; 0; 1] 6).
+  { do 5 eexists. split; reflexivity. }
+  destruct Estore as (v0 & v1 & v2 & v3 & v4 & Es & Ev4).
+  split.
+  { intros k v Hg. rewrite Es in Hg. cbn [store_get] in Hg.
+    destruct (N.eqb_spec 0 k) as [<-|_]; [left; reflexivity|].
+    destruct (N.eqb_spec (key1 0) k) as [<-|_]; [right; right; left; apply key1_space|].
+    destruct (N.eqb_spec (key2 0) k) as [<-|_]; [right; right; right; apply key2_space|].
+    destruct (N.eqb_spec (key2 1) k) as [<-|_]; [right; right; right; apply key2_space|].
+    destruct (N.eqb_spec 65537 k) as [<-|_]; [right; left; reflexivity|discriminate]. }
+  split.
+  { intros k v Hg Hb. rewrite Es in Hg. cbn [store_get] in Hg.
+    destruct (N.eqb_spec 0 k) as [<-|_]; [discriminate|].
+    destruct (N.eqb_spec (key1 0) k) as [<-|_]; [rewrite key1_bit in Hb; discriminate|].
+    destruct (N.eqb_spec (key2 0) k) as [<-|_]; [rewrite key2_bit in Hb; discriminate|].
+    destruct (N.eqb_spec (key2 1) k) as [<-|_]; [rewrite key2_bit in Hb; discriminate|].
+    destruct (N.eqb_spec 65537 k) as [<-|_]; [|discriminate].
+    inversion Hg; subst v. eexists _, 6. split; [exact Ev4|]. vm_compute. discriminate. }
+  split; [exact Hnf|].
+  repeat split; try (vm_compute; congruence); try reflexivity. exact E.
 Qed.
